@@ -625,14 +625,16 @@ def c13(run):
 
 def c14(run):
     return fault_check(run, "cancellation of the context inside the k-th callback, a callback that blocks until the context is cancelled, and "
-                            "Query.Cancel() from another goroutine at seeded instants, against a storage that honours the context; Exec must "
+                            "Query.Cancel() / Query.Close() from another goroutine at seeded instants and at every pass of every scheduling point of the engine "
+                            "(hook H2 as a gate), against a storage that honours the context (a blocked callback returns 3 ms after the cancellation); Exec must "
                             "return within 5 s with the context's error or the complete fault-free result, and no goroutine may be alive "
                             "3 s after Close.",
                        ["bounded time = 5 s; goroutine census by runtime.NumGoroutine with a 3 s grace period", "scheduling is whatever the Go scheduler does under the injected faults"])
 
 
 def c15(run):
-    return fault_check(run, "an error returned by Querier(), by SeriesSet.Err after the k-th Next, or by an iterator's Seek/Next (ValNone + Err); "
+    return fault_check(run, "an error returned by Querier(), by SeriesSet.Err after the k-th Next, or by an iterator's Seek/Next (ValNone + Err) - at the k-th "
+                            "callback only (err) or at every callback from the k-th on (errdown: the storage went down), with 1, 2 and 4 shards; "
                             "the result must carry an error that wraps the storage's error.",
                        ["errors.Is(result.Err, injected) decides 'wraps the storage's error'"])
 
